@@ -27,6 +27,11 @@ func checkC08(p *Program, r *Reporter) {
 	r.Rule("E3-D1", "pointer result of a repository function that may return nil: tested (or its error tested) before dereference", 0)
 	r.Rule("E3-D2", "pointer field that is nil-tested somewhere (or a parameter fed from one): non-nil test dominates every dereference", 10)
 	e.classD("E3-D", e.fns)
+	r.Rule("E3-G", "make with a request-controlled length or capacity: proven non-negative", 0)
+	e.classG("E3-G", e.fns)
+	r.Rule("E3-D3", "pointer result of a library function documented to return nil (etree lookups): tested before use", 1)
+	r.Rule("E3-C2", "library functions that panic on bad input (httptest.NewRequest, MustCompile, template.Must) get no request-controlled argument", 0)
+	e.classLib("E3-D3", "E3-C2", e.fns)
 	checkCursorProgress(p, r, e.fns, "E3-F1", 1)
 	checkChannelOps(p, r, "E3-F2", 3)
 }
